@@ -92,7 +92,13 @@ def scenario_for(seed, index, tier):
     if v < 0.4:
         net.update(segment=True, short_read=True,
                    max_seg=rng.choice([3, 64, 1000]))
+    slow = None
+    if rng.random() < 0.2:
+        # a slow early listener: every k-th packet costs it some time
+        slow = {'every': rng.choice([1, 3, 10]),
+                'us': rng.choice([1000, 30000, 200000])}
     return {
+        'slow_listener': slow,
         'proto': proto, 'compress': compress, 'history': hist,
         'user_packets': user_packets, 'kick': kick,
         'server': {'conns': [{'login': login, 'play': play}]},
@@ -131,6 +137,9 @@ def execute(scenario, tape):
                 return
             if st['in_play']:
                 st['log'].append((p.id, type(p) is Packet))
+                sl = scenario.get('slow_listener')
+                if sl and len(st['log']) % sl['every'] == 0:
+                    w.sleep(sl['us'])
         conn.register_packet_listener(on_packet, Packet, early=True)
 
         def user():
